@@ -27,9 +27,9 @@ with open(os.path.join(out, "PROPERTY.txt"), "w") as f:
     if q:
         f.write(f"Quantified over: {q.get('text','')}\n\n")
     f.write("Ideas already used by others (yours must be different in kind):\n" + "\n".join(used) + "\n")
-    extra = os.path.join(root, "seeded", pid + ".notes")
-    if os.path.exists(extra):
-        f.write("\n" + open(extra).read())
+    for extra in (os.path.join(root, "seeded", pid + ".notes"), os.path.join(root, "seeded", "ALL.notes")):
+        if os.path.exists(extra):
+            f.write("\n" + open(extra).read())
 hint = ("a particular interleaving, a fault or cancellation at a particular point, a multi-step sequence of "
         "operations, an unusual input or rare option combination, or two cooperating edit sites that each look fine alone")
 demo = ("either a Go test file demo_test.go (it will be copied into the repository root as zz_demo_test.go and run with "
